@@ -267,21 +267,22 @@ def run(ctx):
         plan = P.plan_identity()
         # truncation: every length; for the big image in quick: every length up to the end of the struct block, the two
         # lengths around every array boundary and every 64th length (cap stated)
-        if big and not ctx.thorough:
+        full_big = bool(os.environ.get("C31_FULL_BIG"))      # every length / every element of the 128 KB image: hours
+        if big and not (ctx.thorough and full_big):
             L = set(range(0, lay.off_arrays + 64))
             for _, off, elsize, cnt, _ in lay.arrays:
                 L.update(x for x in (off - 1, off, off + 1) if 0 <= x < size)
-            L.update(range(0, size, 64))
+            L.update(range(0, size, 8 if ctx.thorough else 64))
             L.add(size - 1)
             plan += P.plan_truncation(size, sorted(L))
             ctx.exhaustive = False
             ctx.extra["cap: truncation lengths of %s" % name] = "%d of %d" % (len(L), size)
         else:
             plan += P.plan_truncation(size)
-        ints, st = P.plan_ints(lay, sizes, header, 2 if (big and not ctx.thorough) else None)
+        ints, st = P.plan_ints(lay, sizes, header, (None if (ctx.thorough and full_big) else (8 if ctx.thorough else 2)) if big else None)
         if st["capped_arrays"]:
             ctx.exhaustive = False
-            ctx.extra["cap: int arrays of %s limited to first and last element" % name] = st["capped_arrays"]
+            ctx.extra["cap: int arrays of %s limited to %s elements spread over the array" % (name, 8 if ctx.thorough else 2)] = st["capped_arrays"]
         plan += ints
         npairs = nbytes = 0
         if ctx.thorough:
